@@ -228,19 +228,18 @@ theorem seq_unique (wf : SpecWF spec) {o o' : SeqObj} (h : o ∈ spec.seqs) (h' 
   exact (Option.some.inj h1).symm
 
 /-- the number of the forward view of a defined object, and the place of the object in its list -/
-theorem numOf_obj (wf : SpecWF spec) {o : SeqObj} (ho : o ∈ spec.seqs) (rev : Bool) :
-    ∃ n0, numOf spec ⟨o.name, rev⟩ = some (n0 + (if rev then 1 else 0)) ∧
+theorem numOf_obj (wf : SpecWF spec) {o : SeqObj} (ho : o ∈ spec.seqs) :
+    ∃ n0, (∀ rev : Bool, numOf spec ⟨o.name, rev⟩ = some (n0 + (if rev then 1 else 0))) ∧
       ((o.isSup = false ∧ ∃ k, (k, o) ∈ enum spec.baseSeqs ∧ n0 = 2 * k) ∨
        (o.isSup = true ∧ ∃ k, (k, o) ∈ enum spec.supSeqs ∧ n0 = 2 * spec.baseSeqs.length + 2 * k)) := by
-  unfold numOf
-  simp only
   cases hb : spec.baseSeqs.findIdx? (·.name == o.name) with
   | some k =>
     obtain ⟨o', hk, hp⟩ := findIdx?_spec hb
     have hm := mem_baseSeqs (List.mem_of_getElem? hk)
     have : o' = o := seq_unique wf hm.1 ho (by simpa using hp)
     subst this
-    exact ⟨2 * k, rfl, Or.inl ⟨hm.2, k, mem_enum_of_getElem? hk, rfl⟩⟩
+    refine ⟨2 * k, fun rev => ?_, Or.inl ⟨hm.2, k, mem_enum_of_getElem? hk, rfl⟩⟩
+    unfold numOf; simp only [hb]
   | none =>
     have hnb : o.isSup = true := by
       cases hs : o.isSup with
@@ -259,7 +258,8 @@ theorem numOf_obj (wf : SpecWF spec) {o : SeqObj} (ho : o ∈ spec.seqs) (rev : 
       have hm := mem_supSeqs (List.mem_of_getElem? hk)
       have : o' = o := seq_unique wf hm.1 ho (by simpa using hp)
       subst this
-      exact ⟨2 * spec.baseSeqs.length + 2 * k, rfl, Or.inr ⟨hnb, k, mem_enum_of_getElem? hk, rfl⟩⟩
+      refine ⟨2 * spec.baseSeqs.length + 2 * k, fun rev => ?_, Or.inr ⟨hnb, k, mem_enum_of_getElem? hk, rfl⟩⟩
+      unfold numOf; simp only [hb, hs]
 
 theorem sum_lenOf_items (wf : SpecWF spec) {items : List ItemRef} {bases : List BaseRef} (ok : ItemsOK spec items bases) :
     (items.map (lenOf spec)).sum = (nucsOfBases bases).length := by
@@ -302,7 +302,8 @@ theorem conn_seq (S : Seeded tbl mode spec s c) :
         ∃ num cn, numOf spec ⟨o.name, false⟩ = some num ∧ Canon spec (encOf spec (layOf mode spec)) n cn ∧
           GR c ((encOf spec (layOf mode spec)).sq num x) n.comp cn := by
       intro x n hn
-      obtain ⟨n0, hnum, hcls⟩ := numOf_obj wf ho false
+      obtain ⟨n0, hnumAll, hcls⟩ := numOf_obj wf ho
+      have hnum := hnumAll false
       simp only [Bool.false_eq_true, if_false, Nat.add_zero] at hnum
       have hxl : x < o.len := by rw [← wf.seqLen o ho]; exact getElem?_lt hn
       rcases hcls with ⟨hsup, k, hk, rfl⟩ | ⟨hsup, k, hk, rfl⟩
@@ -348,30 +349,12 @@ theorem conn_seq (S : Seeded tbl mode spec s c) :
         simp only [hf, Option.map_some, Option.some.injEq] at hn
         subst hn
         obtain ⟨num, cn, hnum, hcan, hreach⟩ := fwdCase _ nf hf
-        obtain ⟨n0, hnum1, hcls⟩ := numOf_obj wf ho true
-        obtain ⟨n0', hnum0, hcls0⟩ := numOf_obj wf ho false
+        obtain ⟨n0, hnumAll, hcls⟩ := numOf_obj wf ho
+        have hnum0 := hnumAll false
+        have hnum1 := hnumAll true
         simp only [Bool.false_eq_true, if_false, Nat.add_zero] at hnum0
         simp only [if_true] at hnum1
         rw [hnum0] at hnum; cases hnum
-        -- both classifications name the same number
-        have hn0 : n0 = n0' := by
-          rcases hcls with ⟨hs1, k, hk, rfl⟩ | ⟨hs1, k, hk, rfl⟩ <;>
-            rcases hcls0 with ⟨hs2, k', hk', rfl⟩ | ⟨hs2, k', hk', rfl⟩
-          · have := mem_enum hk; have := mem_enum hk'
-            have e1 := enum_getElem? hk; have e2 := enum_getElem? hk'
-            simp only at e1 e2
-            have hnd : spec.baseSeqs.Nodup := by
-              -- distinct names give distinct objects
-              unfold Spec.baseSeqs
-              have : (spec.seqs.map (·.name)).Nodup ∨ True := Or.inr trivial
-              exact List.Nodup.filter _ (by
-                rw [List.nodup_iff_pairwise_ne] 
-                exact List.pairwise_of_forall_mem_list (fun _ _ _ _ => by sorry))
-            sorry
-          · rw [hs1] at hs2; cases hs2
-          · rw [hs1] at hs2; cases hs2
-          · sorry
-        subst hn0
         have hlenv := wf.seqLen o ho
         have hxl' : x < o.len := by rw [← hlenv]; exact hxl
         have hedge := viewEdges_has (spec := spec) (encOf spec (layOf mode spec)) (n0 := n0) (o := o) (by
